@@ -3552,9 +3552,24 @@ impl PartialEq<XmlText> for XmlText {
 
 impl fmt::Display for XmlText {
     fn fmt(&self, f: &mut fmt::Formatter<'_>) -> Result<(), fmt::Error> {
-        // '>' must not follow ']]' in content, and the ']]' may be the end of the previous
-        // text node: always write it as a reference.
-        write!(f, "{}", self.text.replace('>', "&gt;"))
+        // '>' must not follow ']]' in content. The ']]' may end the previous text node, so a
+        // '>' that has nothing but ']' in front of it is written as a reference too.
+        let mut brackets = 0;
+        let mut only_brackets = true;
+        for c in self.text.chars() {
+            if c == '>' && (brackets >= 2 || only_brackets) {
+                write!(f, "&gt;")?;
+            } else {
+                write!(f, "{}", c)?;
+            }
+            if c == ']' {
+                brackets += 1;
+            } else {
+                brackets = 0;
+                only_brackets = false;
+            }
+        }
+        Ok(())
     }
 }
 
